@@ -420,7 +420,7 @@ def r6_populate(ctx):
     else:
         t = flat(show(fn.body))
         want = '{ifletSome(count_arg)=args.get("var_count"){self.populate_with_count_arg(count_arg,args,foreign_key,locale,key_path)}else{self.populate_with_new_key(self.count_key.clone(),args,foreign_key,locale,key_path)}}'
-        if t != want:
+        if not same(t, want):
             r.viol("R6:Ranges::populate", "Ranges::populate changed: %s" % t[:160], file=fn.file, line=fn.line)
         else:
             r.inst("Ranges::populate", "count arg present -> populate_with_count_arg(count_arg, args, ..) else keep own count key")
